@@ -33,7 +33,9 @@ UNIT = Unit(
     rules=["attrs", "fmtmsg", ("strip", "tast::"), ("strip", "hir::"), "iter_map_collect", "for_index"],
     describe="typer::toplevel::typecheck_fn, from the parameter types on (fragment): the body of a function is checked against its DECLARED result type (unit when none is written) "
              "in an environment in which every parameter is bound to its DECLARED type, and the constraints are solved afterwards — the signature the callers were checked "
-             "against is the one the body is held to",
+             "against is the one the body is held to. The same for the methods of an impl block (`Self` replaced by the impl's type). The DECLARATIONS everything else is checked "
+             "against: define_function records (declared parameter types) -> (declared result type) as the function's scheme; define_struct / define_enum record the written "
+             "fields / variants, in order, with the types their annotations denote; define_trait records every declared method with its declared signature",
     trusted=["FRAGMENT fn_body_checked: the collection of the generic bounds in front is dropped; `typer.check_expr(.., f.body, &ret_ty)` is the gate stub check_body whose "
              "precondition is the statement (and `solve` demands that the body was checked); Ty::from_hir is an uninterpreted function of the written type (environment and type "
              "parameters are fixed within one function); insert_var appears with its frame (other locals keep their binding: ASSUMED, `last_mut()` is out of reach); ids of "
